@@ -62,18 +62,19 @@ theorem C05_split_page (env : Env) (fuel : Nat) (ctm : Matrix) (res : Res) (s1 s
 dictionary, every split of the page content into streams, if the ISO text model gives the
 concatenated program a meaning (glyph list `gl`), then pdfminer's interpreter (as modelled) reports
 exactly `gl` — same order, matrix, advance, box, size, font and fill colour — and the nesting budget
-was not exhausted.  By induction over the program (any length, any q/Q nesting, forms of any depth
+was not exhausted. Operands left over after the last operator of the page (`trail`) affect nothing.  By induction over the program (any length, any q/Q nesting, forms of any depth
 ≤ fuel). -/
 theorem C05_program (env : Env) (fuel : Nat) (ctm : Matrix) (res : Res) (streams : List (List Tok))
-    (is : List Instr) (gl : List Glyph) (hparse : parseInstrs streams.flatten [] = (is, []))
+    (is : List Instr) (trail : List Obj) (gl : List Glyph) (hparse : parseInstrs streams.flatten [] = (is, trail))
     (h : TextModel.runPage env fuel ctm res is = some gl) :
     (Interp.runPage env fuel ctm res streams).2 = gl ∧ (Interp.runPage env fuel ctm res streams).1.fuelOk = true := by
-  have hsound := parseInstrs_sound streams.flatten [] is hparse
+  have hsound := parseInstrs_sound' streams.flatten [] is trail hparse
   simp only [List.map_nil, List.nil_append] at hsound
   unfold Interp.runPage
-  rw [C05_split, hsound]
-  exact stream_sim env (Interp.runForm env fuel) (TextModel.runForm env fuel) (runForm_agree env fuel)
+  rw [C05_split, hsound, execToks_append, execToks_opnds]
+  obtain ⟨h1, h2⟩ := stream_sim env (Interp.runForm env fuel) (TextModel.runForm env fuel) (runForm_agree env fuel)
     (MState.init ctm res) (GS.init ctm) res is gl (R_init env ctm res) h
+  exact ⟨by simpa using h1, by simpa using h2⟩
 
 /-! ## From bytes: the split theorem over the lexer model of C14 -/
 
@@ -117,10 +118,10 @@ theorem C05_split_at_white_space (a b : Bytes) (c : UInt8) (hc : c = 32 ∨ c = 
 turns the streams into the program `is` and the text model gives it the meaning `gl`, the
 interpreter run on those tokens reports exactly `gl`. -/
 theorem C05_program_bytes (env : Env) (fuel : Nat) (ctm : Matrix) (res : Res) (streams : List Bytes)
-    (toks : List Tok) (is : List Instr) (gl : List Glyph) (hlex : contentToks streams = some toks)
-    (hparse : parseInstrs toks [] = (is, [])) (h : TextModel.runPage env fuel ctm res is = some gl) :
+    (toks : List Tok) (is : List Instr) (trail : List Obj) (gl : List Glyph) (hlex : contentToks streams = some toks)
+    (hparse : parseInstrs toks [] = (is, trail)) (h : TextModel.runPage env fuel ctm res is = some gl) :
     (Interp.runPage env fuel ctm res [toks]).2 = gl ∧ (Interp.runPage env fuel ctm res [toks]).1.fuelOk = true :=
-  C05_program env fuel ctm res [toks] is gl (by simpa using hparse) h
+  C05_program env fuel ctm res [toks] is trail gl (by simpa using hparse) h
 
 /-! ## The caller's state after a form is what it was before -/
 
@@ -137,7 +138,9 @@ theorem C05_form_frame (env : Env) (rf : Form → MState → List Glyph × Bool)
     · exact ⟨rfl, fun h => h⟩
     · split
       · exact ⟨rfl, fun h => h⟩
-      · exact ⟨rfl, fun _ => rfl⟩
+      · split
+        · exact ⟨rfl, fun h => h⟩
+        · exact ⟨rfl, fun _ => rfl⟩
   | num _ => exact ⟨rfl, fun h => h⟩
   | str _ => exact ⟨rfl, fun h => h⟩
   | arr _ => exact ⟨rfl, fun h => h⟩
@@ -155,8 +158,10 @@ theorem C05_form_frame_spec (env : Env) (rf : Form → GS → Res → Option (Li
     · simp at h
     · split at h
       · simp at h
-      · simp only [Option.some.injEq, Prod.mk.injEq] at h
-        exact h.1.symm
+      · split at h
+        · simp at h
+        · simp only [Option.some.injEq, Prod.mk.injEq] at h
+          exact h.1.symm
 
 /-! ## Operators with missing or ill-typed operands affect nothing but themselves -/
 
@@ -243,30 +248,27 @@ theorem C05_fuel_stable (env : Env) (fuel k : Nat) (ctm : Matrix) (res : Res) (i
 /-- … and so the interpreter reports the text model's glyphs at every larger budget too: a page
 whose forms nest at most `fuel` deep is handled identically for all budgets ≥ `fuel`. -/
 theorem C05_program_any_budget (env : Env) (fuel k : Nat) (ctm : Matrix) (res : Res) (streams : List (List Tok))
-    (is : List Instr) (gl : List Glyph) (hparse : parseInstrs streams.flatten [] = (is, []))
+    (is : List Instr) (trail : List Obj) (gl : List Glyph) (hparse : parseInstrs streams.flatten [] = (is, trail))
     (h : TextModel.runPage env fuel ctm res is = some gl) :
     (Interp.runPage env (fuel + k) ctm res streams).2 = gl ∧
       (Interp.runPage env (fuel + k) ctm res streams).1.fuelOk = true :=
-  C05_program env (fuel + k) ctm res streams is gl hparse (C05_fuel_stable env fuel k ctm res is gl h)
+  C05_program env (fuel + k) ctm res streams is trail gl hparse (C05_fuel_stable env fuel k ctm res is gl h)
 
-/-- **A stated budget always suffices**: when every form has its own resource dictionary naming
-only earlier forms of the table (an acyclic `Do` graph), a budget of `env.forms.length` — linear in
-the size of the document — is never exhausted, for any page program at all (in or outside the
-domain of the text model). -/
-theorem C05_budget_suffices (env : Env) (hr : Ranked env) (fuel : Nat) (hfuel : env.forms.length ≤ fuel)
+/-- **A stated budget always suffices**: a budget of `env.forms.length + 1` — linear in the size
+of the document — is never exhausted, for any page program and any form table at all, cyclic ones
+included: pdfminer ignores a form that is already being painted (`active_forms`), so the nesting
+cannot exceed the number of forms. -/
+theorem C05_budget_suffices (env : Env) (fuel : Nat) (hfuel : env.forms.length < fuel)
     (ctm : Matrix) (res : Res) (streams : List (List Tok)) :
     (Interp.runPage env fuel ctm res streams).1.fuelOk = true := by
   unfold Interp.runPage
   rw [C05_split]
   refine (execToks_inv env (Interp.runForm env fuel) res ?_ streams.flatten (MState.init ctm res) rfl rfl).2
-  intro n j fm hj hfm st0 hst0 hres0
-  have hjl : j < env.forms.length := by
-    rcases Nat.lt_or_ge j env.forms.length with h | h
-    · exact h
-    · rw [List.getElem?_eq_none h] at hfm; simp at hfm
-  refine runForm_budget env hr j fm st0 fuel hfm ?_ hst0 (by omega)
-  obtain ⟨r, hr1, _⟩ := hr j fm hfm
-  rw [hres0, hr1]; rfl
+  intro j fm hfm hact st0 hst0 hres0
+  have hfree : freeForms env st0.res.active ≤ env.forms.length := by
+    unfold freeForms
+    exact Nat.le_trans (List.length_filter_le _ _) (by simp)
+  exact runForm_budget env env.forms.length fm st0 fuel hfree hfuel hst0
 
 /-! ## Non-vacuity: the hypotheses are met by non-trivial instances -/
 
@@ -278,9 +280,9 @@ private def exFontV : Font := ⟨"VfV0", 1, [-1000, -1000], -900, -120, none, tr
 /-- A form that relies on what it inherits (font, size, fill colour): `BT 1 2 Td (!) Tj ET`. -/
 private def exFormProg : List Instr :=
   [⟨.BT, []⟩, ⟨.Td, [.num 1, .num 2]⟩, ⟨.Tj, [.str [33]]⟩, ⟨.ET, []⟩]
-private def exForm : Form := ⟨some (2, 0, 0, 2, 50, 60), some ⟨[("F1", 0)], []⟩, exFormProg.flatMap Instr.toks⟩
+private def exForm : Form := ⟨some (2, 0, 0, 2, 50, 60), some ⟨[("F1", 0)], [], [], []⟩, exFormProg.flatMap Instr.toks⟩
 private def exEnv : Env := ⟨[exFont, exFontV], [exForm]⟩
-private def exRes : Res := ⟨[("F1", 0), ("V1", 1)], [("X0", 0)]⟩
+private def exRes : Res := ⟨[("F1", 0), ("V1", 1)], [("X0", 0)], [("CS1", ("DeviceCMYK", 4)), ("Sep", ("Separation", 1))], []⟩
 
 /-- `q 1 0 0 1 10 20 cm /X0 Do Q BT /F1 10 Tf 1 0 0 1 100 700 Tm 2 Tc 3 Tw 50 Tz 12 TL (! ) Tj
 /x 5 Td 1 2 (") " [-100 (#)] TJ ET` — a form with a Matrix, then caller text; Tc/Tw/Tz; an
@@ -324,7 +326,7 @@ example : exFontV.vertical = true ∧ exFontV.multibyte = true := by decide
 /-- A Type 3 font with a skewed FontMatrix `[1/512 0 1/1024 1/1024 0 0]`: width 512 advances by
 `512·(1/512)·Tfs = 8` at size 8, however large the skew term `c` is. -/
 example : (TextModel.runPage ⟨[⟨"VfT1", 65, [512, 1024], 0, -128, some (1/512, 0, 1/1024, 1/1024, 0, 0), false, false, [], 880⟩], []⟩
-      1 MATRIX_IDENTITY ⟨[("T3", 0)], []⟩
+      1 MATRIX_IDENTITY ⟨[("T3", 0)], [], [], []⟩
       [⟨.BT, []⟩, ⟨.Tf, [.name "T3", .num 8]⟩, ⟨.Tj, [.str [65, 66]]⟩, ⟨.ET, []⟩]).map
       (fun l => l.map (fun g => (g.m.2.2.2.2.1, g.adv)))
     = some [(0, 8), (8, 16)] := by decide +kernel
@@ -349,19 +351,32 @@ example : (Lexer.foldBytes Lexer.St.init (asciiBytes "1 0 0 1 5 5 cm") 0).1.mode
 example : ¬ Between (Lexer.foldBytes Lexer.St.init (asciiBytes "(A) T") 0).1 := by
   unfold Between; decide +kernel
 
+/-- Colour-space resources: `/CS1 cs` (a DeviceCMYK alias of the page's resources) selects `0 0 0 1`,
+`/Sep cs` tint 1, `/Nope cs` (defined nowhere) is ignored, and inside the form — whose own
+resources do not define `/CS1` — `/CS1 cs` is ignored as well. -/
+example : (TextModel.runPage ⟨[exFont], [⟨none, some ⟨[("F1", 0)], [], [], []⟩,
+        [⟨.cs, [.name "CS1"]⟩, ⟨.BT, []⟩, ⟨.Tj, [.str [33]]⟩, ⟨.ET, []⟩].flatMap Instr.toks⟩]⟩ 3 MATRIX_IDENTITY
+      ⟨[("F1", 0)], [("X0", 0)], [("CS1", ("DeviceCMYK", 4)), ("Sep", ("Separation", 1))], []⟩
+      [⟨.Tf, [.name "F1", .num 10]⟩, ⟨.g, [.num (1/2)]⟩, ⟨.Do, [.name "X0"]⟩,
+       ⟨.cs, [.name "CS1"]⟩, ⟨.BT, []⟩, ⟨.Tj, [.str [33]]⟩, ⟨.cs, [.name "Sep"]⟩, ⟨.Tj, [.str [33]]⟩,
+       ⟨.cs, [.name "Nope"]⟩, ⟨.Tj, [.str [33]]⟩, ⟨.ET, []⟩]).map (fun l => l.map (·.col))
+    = some [some [1/2], some [0, 0, 0, 1], some [1], some [1]] := by decide +kernel
+
 /-- An instruction with an ill-typed operand that meets the hypotheses of `C05_illtyped`. -/
 example : sig (GS.init MATRIX_IDENTITY) Op.Td = some [Ty.num, Ty.num] ∧
     wellTyped [Ty.num, Ty.num] [Obj.name "x", Obj.num 5] = false := by decide
 
-/-- The example form table is ranked (hypothesis of `C05_budget_suffices`). -/
-example : Ranked exEnv := by
-  intro i fm h
-  match i, h with
-  | 0, h =>
-    simp only [exEnv, List.getElem?_cons_zero, Option.some.injEq] at h
-    subst h
-    exact ⟨⟨[("F1", 0)], []⟩, rfl, by intro n j hj; simp [lookup] at hj⟩
-  | k + 1, h => simp [exEnv] at h
+/-- A form that invokes itself: the interpreter ignores the inner invocation (the text model gives
+such a page no meaning) and shows the form's own glyph once; the budget is not exhausted
+(`C05_budget_suffices` needs no hypothesis on the form table). -/
+example :
+    let selfForm : Form := ⟨none, none, [Tok.opnd (.name "X0"), Tok.op .Do, Tok.op .BT, Tok.opnd (.str [33]), Tok.op .Tj, Tok.op .ET]⟩
+    let env : Env := ⟨[exFont], [selfForm]⟩
+    let r := Interp.runPage env 2 MATRIX_IDENTITY ⟨[("F1", 0)], [("X0", 0)], [], []⟩
+      [[Tok.opnd (.name "F1"), Tok.opnd (.num 10), Tok.op .Tf, Tok.opnd (.name "X0"), Tok.op .Do]]
+    r.2.length = 1 ∧ r.1.fuelOk = true ∧
+      TextModel.runPage env 5 MATRIX_IDENTITY ⟨[("F1", 0)], [("X0", 0)], [], []⟩
+        [⟨.Tf, [.name "F1", .num 10]⟩, ⟨.Do, [.name "X0"]⟩] = none := by decide +kernel
 
 /-- The initial states are related (hypothesis `hR` of `C05_step` is satisfiable). -/
 example : R exEnv (MState.init MATRIX_IDENTITY exRes) ⟨GS.init MATRIX_IDENTITY, [], none, exRes⟩ :=
